@@ -63,7 +63,7 @@ theorem C04_scan (p : Program) (hnp : (run p).panic = none) (hacc : (run p).erro
     rw [List.mem_map]
     exact ⟨functionBody (pass2 p (pass1 p GState.init)).globals f, by
       rw [List.mem_map]; exact ⟨f, by rw [fns_eq_fnDecls]; exact hf, rfl⟩, rfl⟩
-  exact (T2_function hg hn f (hok f hf) he).2.2
+  exact (T2_function hg hn f (hok f hf) he).2.2.1
 
 theorem zip_roots (p : Program) (gs : GState) : ∀ (l : List FnDecl) (f : FnDecl) (b : Block),
     (f, b) ∈ l.zip ((l.map (functionBody gs.globals)).map (·.root)) → b = (functionBody gs.globals f).root
